@@ -171,7 +171,13 @@ def pool():
 def pool_plus(rnd, k):
     """The fixed hostile pool plus k draws from the live dictionary."""
     mp = magic_pool()
-    return pool() + rnd.sample(mp, min(k, len(mp)))
+    from . import magic
+    m = magic.pool()
+    novel = list(m.novel_ints) + list(m.novel_strs) + list(m.novel_bytes) \
+        + [bytearray(b) for b in m.novel_bytes] + list(m.novel['floats'])
+    for c in m.novel['ints']:
+        novel += [c + (1 << 16), c + (1 << 64), float(c), D(c), str(c)]
+    return pool() + rnd.sample(mp, min(k, len(mp))) + novel
 
 
 def random_hostile(rnd):
